@@ -58,6 +58,13 @@ def sources(run):
             with SgzConverter(rsrc) as c:
                 c.convert_to_adv_sgz(p)
     out.append(('re-block of numpy r2', do_reblock))
+    # a survey with holes (the trace count is not the grid size; the stored headers are filtered by the populated-position mask)
+    sgy3 = os.path.join(d, 'holes.sgy')
+    cells = [(i, x) for i in range(5) for x in range(6) if (i, x) not in ((1, 2), (3, 0), (3, 5))]
+    hdrs3 = [{segyio.TraceField.INLINE_3D: 10 + i, segyio.TraceField.CROSSLINE_3D: 20 + 2 * x, segyio.TraceField.CDP_X: 1000 + 25 * i,
+              segyio.TraceField.CDP_Y: 5000 - 25 * x, segyio.TraceField.CDP: 7 * t + 3} for t, (i, x) in enumerate(cells)]
+    inputs.write_segy_traces(sgy3, inputs.cube((len(cells), 40), run.seed + 8), np.arange(40) * 4.0, hdrs3)
+    out.append(('segy with holes r16 (4,4,-1)', lambda p: writers.segy_to_sgz(sgy3, p, 16, (4, 4, -1))))
     sgy2 = os.path.join(d, 'l.sgy')
     data = inputs.cube((9, 70), run.seed + 4)
     hdrs = [{segyio.TraceField.CDP_X: 100 + t, segyio.TraceField.CDP: t + 1} for t in range(9)]
@@ -74,10 +81,12 @@ def calls_for(F, tf_keys=()):
     if F['dim'] == 2:
         return [('get_trace', [0, N, N]), ('get_trace', [nx - 1, N, N]), ('read_subplane', [0, nx, 0, nz]), ('gen_trace_header', [0]),
                 ('gen_trace_header', [nx - 1]), ('meta', [])] + tf
+    tc = readcalls.tracecount(F)
+    holes = [('get_trace', [list(F['mask']).index(0) + 1, N, N]), ('gen_trace_header', [list(F['mask']).index(0) + 1])] if (F.get('mask') and 0 in F['mask']) else []
     return tf + [('read_inline', [0]), ('read_inline', [ni - 1]), ('read_crossline', [nx - 1]), ('read_zslice', [nz - 1]), ('read_zslice', [0]),
-            ('read_volume', []), ('read_subvolume', [0, 2, 0, 2, 0, 5]), ('get_trace', [0, N, N]), ('get_trace', [ni * nx - 1, N, N]),
-            ('read_correlated_diagonal', [0, N, N, N, N]), ('gen_trace_header', [0]), ('gen_trace_header', [ni * nx - 1]),
-            ('tracefield', []), ('meta', [])]
+            ('read_volume', []), ('read_subvolume', [0, 2, 0, 2, 0, 5]), ('get_trace', [0, N, N]), ('get_trace', [tc - 1, N, N]),
+            ('read_correlated_diagonal', [0, N, N, N, N]), ('gen_trace_header', [0]), ('gen_trace_header', [tc - 1]),
+            ('tracefield', []), ('meta', [])] + holes
 
 
 def meta_of(r):
